@@ -716,11 +716,28 @@ func frBody() func() {
 		publishAll()
 		mark := len(pos.t.frames)
 		phase = 2
+		refreshIDs := map[*vClient]uint32{}
 		for _, cn := range conns {
-			cn.cl.cmd(&protocol.Command{SubRefresh: &protocol.SubRefreshRequest{Channel: cn.ch, Token: "tok"}})
+			cmd := &protocol.Command{SubRefresh: &protocol.SubRefreshRequest{Channel: cn.ch, Token: "tok"}}
+			cn.cl.cmd(cmd)
+			refreshIDs[cn.cl] = cmd.Id
 		}
-		pos.cmd(&protocol.Command{SubRefresh: &protocol.SubRefreshRequest{Channel: "pos", Token: "tok"}})
+		posCmd := &protocol.Command{SubRefresh: &protocol.SubRefreshRequest{Channel: "pos", Token: "tok"}}
+		pos.cmd(posCmd)
+		refreshIDs[pos] = posCmd.Id
 		settle()
+		// C09: a command with an id is answered exactly once unless the connection is closed
+		for cl, id := range refreshIDs {
+			nrep := 0
+			for _, f := range cl.t.frames {
+				if f.Reply.Id == id {
+					nrep++
+				}
+			}
+			if nrep != 1 && !cl.t.closed {
+				w.fail(fmt.Sprintf("c09-sub-refresh-replies-%d:filter-changed-%v", nrep, changed), "sub_refresh command #%d got %d replies and the connection stays open (server tags filter %s -> %s)", id, nrep, sf0, sf1)
+			}
+		}
 		publishAll()
 
 		invalidated, stillLive := 0, 0
@@ -848,9 +865,9 @@ func init() {
 		},
 	})
 	vsched.Register(&vsched.Harness{
-		Name: "filterrefresh", Props: []string{"C16"}, Kind: "sched",
+		Name: "filterrefresh", Props: []string{"C16", "C09"}, Kind: "sched",
 		Doc: "sub_refresh and the server tags filter: initial server filter in {none, a, b} x SubRefreshReply.ServerTagsFilter in {not set, a, b} (ChooseFree 9), client filter in {none, a, b}, map subscriptions on a recoverable and a streamless channel (client-side refresh) plus one stream subscription; " +
-			"publications with tags a, b, none before and after the sub_refresh command. Oracle: when the refresh changes the server filter of a map subscription it ends with an unsubscribe push carrying the state-invalidated code (2502) and nothing is delivered afterwards; otherwise (and for the stream subscription, whose filter is replaced in place) later deliveries are admitted by the effective server filter and the client filter.",
+			"publications with tags a, b, none before and after the sub_refresh command. Oracle: every sub_refresh command is answered exactly once (C09); when the refresh changes the server filter of a map subscription it ends with an unsubscribe push carrying the state-invalidated code (2502) and nothing is delivered afterwards; otherwise (and for the stream subscription, whose filter is replaced in place) later deliveries are admitted by the effective server filter and the client filter.",
 		Variants: func(tier string) []vsched.Variant {
 			return []vsched.Variant{{Name: "all", Bound: 0, Shards: 1, NoCache: true, BudgetS: 60}}
 		},
